@@ -289,7 +289,9 @@ class MinFlowDecomp(pathmodel.AbstractPathModelDAG): # Note that we inherit from
         _ = self.get_lowerbound_k()
 
         if self._generating_set is not None:
-            all_weights.update(self._generating_set)
+            # Float elements of the generating set carry solver noise: an element that is zero up to the tolerance
+            # (possibly -2e-14) is not a weight, and the solver rejects such a matrix coefficient
+            all_weights.update(weight for weight in self._generating_set if weight > 1e-9)
             all_weights_list = list(all_weights)
 
         # print("all_weights_list", sorted(all_weights_list))
